@@ -38,7 +38,7 @@ fn h_ni_single() {
     assert!(eq(&x.0, &fips::inv_mix_columns(&b)));
 }
 // (full-block form: > 40 min on z3; the per-column form below is the quick one)
-// @ob name=h_ni_mix_columns props=C17,C20 cfg=hazmat tier=thorough solver=z3 fn=aes::ni::hazmat::mix_columns timeout=3600
+// (did not finish within 3600 s in the thorough-tier run of 2026-10-04; superseded by the additivity + basis obligations at the end of this file: unregistered) @-ob name=h_ni_mix_columns props=C17,C20 cfg=hazmat tier=thorough solver=z3 fn=aes::ni::hazmat::mix_columns timeout=3600
 #[kani::proof]
 #[kani::stub(core::arch::x86_64::_mm_aesimc_si128, x86_models::aesimc)]
 #[kani::unwind(20)]
@@ -122,7 +122,7 @@ fn h_ni_par_lanes() {
 // mix_columns == MixColumns, one symbolic column at a time (the other three columns zero): AESIMC acts on each 4-byte
 // column independently (its model is FIPS-197 InvMixColumns, per column by definition), so the full-block statement is
 // the conjunction of the four single-column ones.
-// @ob name=h_ni_mixcol_percolumn props=C17,C20 cfg=hazmat tier=thorough solver=z3 fn=aes::ni::hazmat::mix_columns timeout=3600
+// (did not finish within 3600 s in the thorough-tier run of 2026-10-04; superseded by the additivity + basis obligations at the end of this file: unregistered) @-ob name=h_ni_mixcol_percolumn props=C17,C20 cfg=hazmat tier=thorough solver=z3 fn=aes::ni::hazmat::mix_columns timeout=3600
 #[kani::proof]
 #[kani::stub(core::arch::x86_64::_mm_aesimc_si128, x86_models::aesimc)]
 #[kani::unwind(20)]
@@ -136,6 +136,59 @@ fn h_ni_mixcol_percolumn() {
     b[4 * c + 1] = col[1];
     b[4 * c + 2] = col[2];
     b[4 * c + 3] = col[3];
+    let mut x = Array(b);
+    unsafe { mix_columns(&mut x); }
+    assert!(eq(&x.0, &fips::mix_columns(&b)));
+}
+
+// ---- mix_columns == MixColumns by GF(2)-linearity (the two monolithic forms above did not finish in 3600 s):
+//   (L1) the real mix_columns is additive:  mc(x ^ y) == mc(x) ^ mc(y)            for all x, y
+//   (L2) FIPS-197 MixColumns (bcref) is additive                                    for all x, y
+//   (B)  mc(e) == MixColumns(e) for every block e with at most one non-zero byte    (all 16 positions x 256 values)
+// Two additive maps that agree on a spanning set of GF(2)^128 agree everywhere.  STATUS: (B) is discharged (10 s) and is
+// registered as a BOUNDED obligation; (L1) and (L2) gave no result in 18 min and are unregistered candidates, so the
+// all-blocks statement for the AES-NI mix_columns is NOT proved here: the falsifier checks it natively on random blocks,
+// inv_mix_columns (one AESIMC) is proved in h_ni_single, and the public hazmat API obligations cover the soft path.
+fn xor16(a: &[u8; 16], b: &[u8; 16]) -> [u8; 16] {
+    let mut r = [0u8; 16];
+    let mut i = 0;
+    while i < 16 {
+        r[i] = a[i] ^ b[i];
+        i += 1;
+    }
+    r
+}
+// (no result after 18 min with CaDiCaL or Kissat (XOR-miter); candidate: unregistered) @-ob name=h_ni_mixcol_additive props=C17,C20 cfg=hazmat kind=lemma fn=aes::ni::hazmat::mix_columns timeout=1200
+#[kani::proof]
+#[kani::stub(core::arch::x86_64::_mm_aesimc_si128, x86_models::aesimc)]
+#[kani::unwind(20)]
+fn h_ni_mixcol_additive() {
+    let a: [u8; 16] = kani::any();
+    let b: [u8; 16] = kani::any();
+    let mut x = Array(a);
+    let mut y = Array(b);
+    let mut z = Array(xor16(&a, &b));
+    unsafe { mix_columns(&mut x); mix_columns(&mut y); mix_columns(&mut z); }
+    assert!(eq(&z.0, &xor16(&x.0, &y.0)));
+}
+// (no result after 18 min with CaDiCaL or Kissat (XOR-miter); candidate: unregistered) @-ob name=h_fips_mixcol_additive props=C17 cfg=hazmat kind=lemma fn=aes::ni::hazmat::mix_columns timeout=1200 note="additivity of the reference MixColumns"
+#[kani::proof]
+#[kani::unwind(20)]
+fn h_fips_mixcol_additive() {
+    let a: [u8; 16] = kani::any();
+    let b: [u8; 16] = kani::any();
+    assert!(eq(&fips::mix_columns(&xor16(&a, &b)), &xor16(&fips::mix_columns(&a), &fips::mix_columns(&b))));
+}
+// @ob name=h_ni_mixcol_basis props=C17,C20 cfg=hazmat kind=bounded bound="blocks with at most one non-zero byte (16 positions x 256 values); the extension to all blocks needs the two additivity candidates above, which are NOT discharged" fn=aes::ni::hazmat::mix_columns timeout=1200
+#[kani::proof]
+#[kani::stub(core::arch::x86_64::_mm_aesimc_si128, x86_models::aesimc)]
+#[kani::unwind(20)]
+fn h_ni_mixcol_basis() {
+    let v: u8 = kani::any();
+    let p: usize = kani::any();
+    kani::assume(p < 16);
+    let mut b = [0u8; 16];
+    b[p] = v;
     let mut x = Array(b);
     unsafe { mix_columns(&mut x); }
     assert!(eq(&x.0, &fips::mix_columns(&b)));
